@@ -398,6 +398,18 @@ def check_roundtrip(fmt, gates, plain, exp, exp_w, nq, acc, mkcase, unsup=None, 
             continue
         got = [canon_obj(g, exact) for g in c2._gates]
         got_w = c2.width
+        if len(exp) <= 2 and label != "json-text":
+            # the exported artefact belongs to the caller: importing the very same object a second time gives the same circuit
+            acc.ev()
+            try:
+                c3 = _import(fmt, art)
+                again = ([canon_obj(g, exact) for g in c3._gates], c3.width)
+            except Exception as e:
+                again = ("raises", repr(e)[:200])
+            if again != (got, got_w):
+                _viol(acc, n, f"{fmt}.import/second-import-of-the-same-object-differs", mkcase,
+                      lambda: {"exported_now": art if not isinstance(art, str) else art[:300], "first": got, "second": again},
+                      f"{fmt}.import/second-import-of-the-same-object-differs")
         d = diff(exp, exp_w, got, got_w)
         try:
             eq = bool(c2 == cc) and not bool(c2 != cc)
